@@ -51,7 +51,7 @@ LENIENT_STRINGS = ["+5", "-0", " 1", "1 ", "0x10", "+0", "+1.5", "Infinity", "-I
 def units(tier, seed):
     us = [('literals',), ('conv', 'int'), ('conv', 'uint'), ('conv', 'double'), ('conv', 'string'), ('conv', 'bytes'),
           ('roundtrip',)]
-    for i in range(12 if tier == 'quick' else 64):
+    for i in range(12 if tier == 'quick' else 640):
         us.append(('random', i))
     return us
 
